@@ -105,6 +105,82 @@ INT_RANGE = {"u8": (0, 2**8 - 1), "u16": (0, 2**16 - 1), "u32": (0, 2**32 - 1), 
              "i64": (-2**63, 2**63 - 1), "i128": (-2**127, 2**127 - 1), "isize": (-2**63, 2**63 - 1)}
 
 
+PRIM_SIZE = {"u8": 1, "i8": 1, "bool": 1, "u16": 2, "i16": 2, "u32": 4, "i32": 4, "f32": 4, "char": 4, "u64": 8, "i64": 8, "f64": 8, "usize": 8, "isize": 8,
+             "u128": 16, "i128": 16, "std::net::Ipv4Addr": 4, "std::net::Ipv6Addr": 16, "std::time::Duration": 12, "std::string::String": 24}
+
+
+def min_size_of(prog, ty, depth=0):
+    """Lower bound (bytes) of size_of::<ty>() — padding and niches only make real sizes larger or equal."""
+    from .c16 import parse_ty
+    ty = ty.strip()
+    if depth > 6:
+        return 1
+    if ty in PRIM_SIZE:
+        return PRIM_SIZE[ty]
+    if ty.startswith("&") or ty.startswith("*") or ty.startswith("std::boxed::Box<"):
+        return 8
+    if ty.startswith("std::vec::Vec<") or ty.startswith("std::collections::"):
+        return 24
+    t = parse_ty(ty)
+    if t[0] == "tuple":
+        return max(1, sum(min_size_of(prog, _ty_s(x), depth + 1) for x in t[1]))
+    if t[0].startswith("std::option::Option") and t[1]:
+        return min_size_of(prog, _ty_s(t[1][0]), depth + 1)
+    adt = prog.adts.get(t[0])
+    if adt:
+        sizes = []
+        for v in adt["variants"]:
+            sizes.append(sum(min_size_of(prog, f["ty"], depth + 1) for f in v["fields"]))
+        return max(1, max(sizes) if sizes else 1)
+    return 1
+
+
+def _ty_s(t):
+    if t[0] == "tuple":
+        return "(%s)" % ", ".join(_ty_s(x) for x in t[1])
+    if t[1]:
+        return "%s<%s>" % (t[0], ", ".join(_ty_s(x) for x in t[1]))
+    return t[0]
+
+
+def upper_bound(an, prog, body, e, depth=0):
+    """Static upper bound of an unsigned expression built from constants and lengths of existing collections."""
+    e = peel(e, widen=True)
+    if depth > 12:
+        return None
+    v = const_eval(e)
+    if v is not None and all(not isinstance(x, tuple) for x in v):
+        return max(v)
+    if e[0] == "call" and e[2] is not None and e[2].is_(*LEN, "std::vec::Vec::len", "alloc::vec::Vec::len"):
+        # element type from the callee's generic arguments / receiver
+        ety = None
+        for a in (e[2].args or []):
+            if not a.startswith("'") and a not in ("std::alloc::Global",):
+                ety = a
+                break
+        sz = min_size_of(prog, ety) if ety else 1
+        return (2 ** 63 - 1) // max(1, sz)
+    if e[0] == "binop":
+        a = upper_bound(an, prog, body, e[2], depth + 1)
+        b = upper_bound(an, prog, body, e[3], depth + 1)
+        if a is None or b is None:
+            return None
+        op = e[1].replace("WithOverflow", "")
+        if op == "Add":
+            return a + b
+        if op == "Mul":
+            return a * b
+        if op in ("Sub", "Div", "Rem", "Shr", "BitAnd"):
+            return a
+        return None
+    if e[0] == "tfield" and e[2] == 0:
+        return upper_bound(an, prog, body, e[1], depth + 1)
+    if e[0] == "phi":
+        bs = [upper_bound(an, prog, body, x, depth + 1) for x in e[1]]
+        return None if any(x is None for x in bs) else max(bs)
+    return None
+
+
 def discharge_assert(an, body, t, blk=None):
     kind = t["kind"]
     cond = an.op(body, t["cond"])
@@ -137,6 +213,13 @@ def discharge_assert(an, body, t, blk=None):
                         good = ff if ne[1] == "Eq" else tt
                         if ne[1] in ("Eq", "Ne", "Gt") and body.edge_dominates((sb, good), blk):
                             return True, "divisor %s is non-zero here: guarded by the comparison at %s" % (dv[:80], body.line(sb))
+    if kind in ("Overflow:Add", "Overflow:Mul") and len(t["ops"]) == 2 and getattr(an, "prog", None) is not None:
+        a = upper_bound(an, an.prog, body, an.op(body, t["ops"][0]))
+        b2 = upper_bound(an, an.prog, body, an.op(body, t["ops"][1]))
+        if a is not None and b2 is not None:
+            r = a + b2 if kind.endswith("Add") else a * b2
+            if r <= 2 ** 64 - 1:
+                return True, "bounded: operands are at most %d and %d (a Vec<T> holds at most isize::MAX / size_of::<T>() elements), so the %s cannot overflow usize" % (a, b2, kind.split(":")[1])
     if kind == "Overflow:Sub" and blk is not None and len(t["ops"]) == 2:
         # guarded subtraction: `if a > b { a - b }` / `if a < b { .. } else { a - b }`
         ca_, cb_ = canon(peel(an.op(body, t["ops"][0]), widen=True)), canon(peel(an.op(body, t["ops"][1]), widen=True))
@@ -421,7 +504,22 @@ def discharge_partial(an, prog, b, blk, t, c, cls, why):
             recv = recv[1:].strip()
         from ..mir import strip_lifetimes
         r2 = strip_lifetimes(recv)
-        ok = r2 in [strip_lifetimes(x) for x in TABLE["total_display_types"]]
+        total = [strip_lifetimes(x) for x in TABLE["total_display_types"]]
+        ok = r2 in total
+        if not ok and (r2.startswith("impl ") or re.match(r"^[A-Z]\w*$", r2)):
+            # generic receiver of a private helper: decide on the concrete argument types at every call site
+            tys = []
+            for cb in prog.bodies.values():
+                for cblk, ct, cc in cb.calls():
+                    if cc is not None and cc.local and cc.path == b.path:
+                        for aty in ct["argtys"]:
+                            a2 = strip_lifetimes(aty).strip()
+                            while a2.startswith("&"):
+                                a2 = a2[1:].strip()
+                            if a2 not in ("[u8]", "str") and not re.match(r"^(u|i)\d+$|^usize$|^bool$", a2):
+                                tys.append(a2)
+            if tys and all(x in total for x in tys):
+                return True, "total-Display: generic to_string in helper %s, instantiated only with %s" % (b.path, sorted(set(tys)))
         return ok, ("total-Display: to_string on %s" % recv) if ok else ("to_string on %s whose Display impl is not in the reviewed total list" % recv)
     if cls == "divisor":
         d = const_of(an.op(b, t["args"][-1]))
